@@ -49,7 +49,87 @@ ANCHORS = ["ebuild/processor.py::EbuildProcessor.write", "ebuild/processor.py::E
            "../../data/lib/pkgcore/ebd/ebuild-daemon.bash", "../../data/lib/pkgcore/ebd/ebuild-daemon-lib.bash",
            "../../data/lib/pkgcore/ebd/exit-handling.bash"]
 MAXLINE = 64
-OP_TIMEOUT = int(os.environ.get("VERIF_C35_OP_TIMEOUT", "45"))
+OP_TIMEOUT = int(os.environ.get("VERIF_C35_OP_TIMEOUT", "20"))     # after this long a blocked pair is a deadlock
+HARD_TIMEOUT = int(os.environ.get("VERIF_C35_HARD_TIMEOUT", "600"))  # ... and this long is too long in any case
+
+
+def _group_sample(pgid):
+    """(cpu ticks, states, count) of the processes whose process group is pgid"""
+    ticks, states, n = 0, set(), 0
+    for d in os.listdir("/proc"):
+        if not d.isdigit():
+            continue
+        try:
+            with open(f"/proc/{d}/stat") as f:
+                st = f.read()
+        except OSError:
+            continue
+        f = st[st.rfind(")") + 2:].split()
+        if len(f) > 12 and f[2] == str(pgid):
+            n += 1
+            states.add(f[0])
+            ticks += int(f[11]) + int(f[12])
+    return ticks, states, n
+
+
+def group_blocked(pgid):
+    """every process of the group sleeps and none used CPU for 2 s (on a loaded machine a slow daemon
+    is runnable or progressing, not blocked) — or the group is gone"""
+    a = _group_sample(pgid)
+    time.sleep(2)
+    b = _group_sample(pgid)
+    if b[2] == 0:
+        return True
+    return a[0] == b[0] and b[1] <= {"S", "Z"} and a[1] <= {"S", "Z"}
+
+
+class Watchdog:
+    """kills process group pgid when an operation has run for OP_TIMEOUT s AND the group is blocked
+    (or for HARD_TIMEOUT s); the kill unblocks read()/waitpid() on the python side"""
+
+    def __init__(self, pgid):
+        import threading
+        self.pgid, self.fired, self._done = pgid, False, threading.Event()
+        self._t = threading.Thread(target=self._run, daemon=True)
+        self._t.start()
+
+    def _run(self):
+        t0 = time.time()
+        while not self._done.wait(2):
+            el = time.time() - t0
+            if el >= OP_TIMEOUT and (el >= HARD_TIMEOUT or group_blocked(self.pgid)):
+                if self._done.is_set():
+                    return
+                self.fired = True
+                try:
+                    os.killpg(self.pgid, signal.SIGKILL)
+                except (OSError, TypeError):
+                    pass
+                return
+
+    def cancel(self):
+        self._done.set()
+
+
+class _NoAlarm:
+    """`signal` as processor.py sees it during the sessions: expect(timeout=10)'s interval timer is
+    not armed (timers are outside the line protocol; on a loaded machine the alarm would make the
+    sessions nondeterministic).  The `timeout` ARGUMENT still takes its path through expect()."""
+
+    def __getattr__(self, n):
+        return getattr(signal, n)
+
+    @staticmethod
+    def setitimer(which, secs, *a):
+        if which == signal.ITIMER_REAL and secs:
+            return (0.0, 0.0)
+        return signal.setitimer(which, secs, *a)
+
+    @staticmethod
+    def signal(signum, handler):
+        if signum == signal.SIGALRM:
+            return signal.getsignal(signum)
+        return signal.signal(signum, handler)
 
 
 def gen_tables():
@@ -220,26 +300,15 @@ class Session:
         self.rec.pull()
         at = len(self.rec.recs)
         self.rec.recs.append(("C", code))
-        # watchdog: the alarm of guard() does not survive expect(timeout=..) (it resets ITIMER_REAL and
-        # the SIGALRM handler), so a second, thread-based one kills the daemon's process group, which
-        # unblocks read()/waitpid() on the python side
-        import threading
+        dog = Watchdog(self.daemon_pid)
         fired = []
-
-        def _kill():
-            fired.append(1)
-            try:
-                os.killpg(self.daemon_pid, signal.SIGKILL)
-            except (OSError, TypeError):
-                pass
-        dog = threading.Timer(OP_TIMEOUT + 5, _kill)
-        dog.daemon = True
-        dog.start()
         try:
             try:
-                v = guard(OP_TIMEOUT, fn)
+                v = fn()
             finally:
                 dog.cancel()
+                if dog.fired:
+                    fired.append(1)
             if fired:
                 raise Timeout()
             res = "1" if (v if truth is None else truth(v)) else "0"
@@ -375,14 +444,14 @@ def real_sessions(chk, P):
     ths = [threading.Thread(target=s.start, daemon=True) for s in pool.values()]
     for t in ths:
         t.start()
-    deadline = time.time() + 240
+    deadline = time.time() + 600
     for t in ths:
         t.join(max(1, deadline - time.time()))
     dead = [n for n, s in pool.items() if s.ebp is None]
     if dead:
         for s in pool.values():
             s.stop()
-        raise RuntimeError(f"ebuild daemons did not start within 240 s: {dead}")
+        raise RuntimeError(f"ebuild daemons did not start within 600 s: {dead}")
 
     def session(name):
         s = pool[name].begin()
@@ -652,7 +721,7 @@ def bash_side(chk, fn_reads, fn_writes, py_writes):
         code = (f'exec 8<"{inp}" 9>"{out}"; PKGCORE_EBD_READ_FD=8; PKGCORE_EBD_WRITE_FD=9; '
                 f'die() {{ echo "DIED $*" >&9; exit 3; }}; __qa_invoke() {{ "$@"; }}; declare -A PKGCORE_PRELOADED_ECLASSES; '
                 f'source "{lib}" || exit 4; {call} >/dev/null 2>&1; read -u 8 rest; echo "REST $rest" >&9; exit 0')
-        r = subprocess.run(["timeout", "120", "bash", "-c", code], capture_output=True, text=True,
+        r = subprocess.run(["timeout", "600", "bash", "-c", code], capture_output=True, text=True,
                            env={"PATH": os.environ.get("PATH", "/usr/bin:/bin")})
         lines = out.read_text().split("\n")[:-1] if out.exists() else []
         want = expect + ["REST LEFTOVER"]
@@ -660,6 +729,150 @@ def bash_side(chk, fn_reads, fn_writes, py_writes):
             probs.append({"what": f"bash {name} against python's literal answers: wrote {lines!r} (exit {r.returncode}), "
                                   f"the tables/model say {want!r}", "function": name})
     return probs
+
+
+# ----------------------------------------------------------------------------- IPC request framing
+def _norm_ws(x):
+    return " ".join(x.split())
+
+
+IPC_CORPUS = [
+    # (requests [(cwd name, options, args)]) — run first, fixed
+    [("src\ndocs", "", ["a b", "c"])],
+    [("plain", "-m 0644\n-x", ["f"])],
+    [("two  spaces", "  --opt  *  -q ", ["*", "back\\slash", "tab\there", "", "z"])],
+    [("plain", "", ["one"]), ("src\ndocs", "-r", ["x y"]), ("plain", "-a\n-b", [])],
+    [("nl-at-end\n", "--x", ["k"]), ("a\n\nb", "", ["q"])],
+]
+
+
+def ipc_framing(chk, P, sessions_spec):
+    """LIVE bash (__ebd_ipc_cmd of ebuild-daemon-lib.bash, several helper requests in a row from
+    directories / with option strings containing newlines, tabs, runs of spaces, glob characters) against
+    LIVE python (generic_handler -> IpcCommand.__call__ with a recording no-op body) over two real
+    pipes.  Judged: FRAMING — every request is read as exactly one request (as many handler calls as
+    requests, each with the phase and the argument list that were sent, cwd/options equal modulo the
+    whitespace collapsing of unquoted expansion), every reply reaches the request that asked, the
+    phase end is read as the phase end and nothing is left in the pipe.  Returns property failures."""
+    import shlex
+    import threading
+    from pkgcore.ebuild import ebd_ipc
+    lib = REPO / "data" / "lib" / "pkgcore" / "ebd" / "ebuild-daemon-lib.bash"
+    fails = []
+    for si, reqs in enumerate(sessions_spec):
+        base = chk.scratch / f"ipc{si}"
+        base.mkdir(parents=True, exist_ok=True)
+        for name, _, _ in reqs:
+            full = os.path.join(str(base), name)
+            # the directory itself, what unquoted expansion makes of its path, what a reader that stops
+            # at the first newline makes of it
+            for d in {full, _norm_ws(full), full.split("\n")[0]}:
+                os.makedirs(d, exist_ok=True)
+        body = ["exec 2>/dev/null",
+                'die() { echo "dying " >&${PKGCORE_EBD_WRITE_FD}; echo "dead" >&${PKGCORE_EBD_WRITE_FD}; exit 3; }',
+                f"source {shlex.quote(str(lib))} || exit 4", "PKGCORE_NONFATAL=false", "EBUILD_PHASE=install"]
+        for name, opts, args in reqs:
+            body.append(f"cd {shlex.quote(os.path.join(str(base), name))} || exit 5")
+            body.append("__ebd_ipc_cmd dodoc " + shlex.quote(opts) + " " + " ".join(shlex.quote(a) for a in args)
+                        + " >/dev/null || exit 6")
+        body.append('__ebd_write_line "phases succeeded"')
+        body.append("exit 0")
+        script = base / "daemon.sh"
+        script.write_text("\n".join(body) + "\n")
+        cread, cwrite = os.pipe()
+        dread, dwrite = os.pipe()
+        proc = subprocess.Popen(["bash", str(script)], pass_fds=(cread, dwrite), stdout=subprocess.DEVNULL,
+                                start_new_session=True,
+                                env={"PATH": os.environ.get("PATH", "/usr/bin:/bin"),
+                                     "PKGCORE_EBD_READ_FD": str(cread), "PKGCORE_EBD_WRITE_FD": str(dwrite)})
+        os.close(cread)
+        os.close(dwrite)
+        calls = []
+
+        class Rec(ebd_ipc.IpcCommand):
+            def __init__(self):
+                self.name = "dodoc"
+
+            def parse_args(self, options, args):
+                calls.append({"cwd": self.cwd, "phase": self.phase, "options": options, "args": args})
+                return args
+
+            def run(self, args):
+                return 0
+        ebp = P.EbuildProcessor.__new__(P.EbuildProcessor)
+        ebp.pid = proc.pid
+        ebp._outstanding_expects = []
+        ebp.processing_lock = False
+        ebp.ebd_write = os.fdopen(cwrite, "w")
+        ebp.ebd_read = os.fdopen(dread, "rb")
+        fired = []
+        dog = Watchdog(proc.pid)
+        try:
+            res = ebp.generic_handler(additional_commands={"dodoc": Rec()})
+        except BaseException as e:  # noqa: BLE001
+            res = Err(f"{type(e).__name__}: {e}"[:200])
+        finally:
+            dog.cancel()
+            if dog.fired:
+                fired.append(1)
+        try:
+            ebp.ebd_write.close()
+        except OSError:
+            pass
+        try:
+            proc.wait(10)
+        except subprocess.TimeoutExpired:
+            proc.kill()
+            proc.wait()
+        left = ebp.ebd_read.read()
+        ebp.ebd_read.close()
+        want = [{"phase": "install", "args": list(a), "cwd": _norm_ws(os.path.join(str(base), n)),
+                 "options": _norm_ws(o)} for n, o, a in reqs]
+        got = [{"phase": c["phase"], "args": c["args"], "cwd": _norm_ws(c["cwd"]),
+                "options": _norm_ws(" ".join(c["options"]))} for c in calls]
+        # strip("\0") of the argument line drops empty arguments at its ends (not a framing matter)
+        for w in want:
+            while w["args"] and w["args"][-1] == "":
+                w["args"].pop()
+            while w["args"] and w["args"][0] == "":
+                w["args"].pop(0)
+        ok = (res is True and not fired and got == want and left == b"" and proc.returncode == 0)
+        chk.count("ipc-framing", len(reqs))
+        if any("\n" in n or "\n" in o for n, o, _ in reqs):
+            chk.nontrivial(("ipc", si, repr(reqs)))
+        if not ok:
+            fails.append({"what": "helper (IPC) requests are not framed as one request each: python read "
+                                  + ("nothing for %d s while bash waited (deadlock)" % OP_TIMEOUT if fired else
+                                     "%d request(s) for the %d sent / misaligned fields, handler result %r, %d byte(s) "
+                                     "left unread, bash exit %r" % (len(got), len(want), res, len(left), proc.returncode)),
+                          "requests": [{"cwd_name": n, "options": o, "args": a} for n, o, a in reqs],
+                          "python_read": got, "sent": want, "left_in_pipe": left[:200].decode("utf-8", "replace")})
+    return fails
+
+
+def kf_ipc_arg_newline(requests):
+    """known-finding class: a helper ARGUMENT contains a newline (the argument array is sent as one
+    NUL-separated, newline-terminated line, so such an argument cannot be framed)"""
+    return any("\n" in a for r in requests for a in (r["args"] if isinstance(r, dict) else r[2]))
+
+
+KF_IPC_CASE = [[("plain", "", ["a\nb", "c"])]]
+
+
+def ipc_random(rng, n):
+    toks = ["a", "b-", "c.d", " ", "  ", "\n", "\t", "ü", "x y"]
+    out = []
+    for _ in range(n):
+        reqs = []
+        for _ in range(rng.choice((1, 1, 2, 3))):
+            name = "".join(rng.choice(toks) for _ in range(rng.randint(1, 4))).replace("/", "_")
+            if not name.strip() or name in (".", ".."):
+                name = "d" + name
+            opts = "".join(rng.choice(["-m 0644", "--x", " ", "  ", "\n", "*", "-r", "\t"]) for _ in range(rng.randint(0, 4)))
+            args = [rng.choice(["f", "a b", "*", "q\\", "ü", "-n", "x  y"]) for _ in range(rng.randint(0, 3))]
+            reqs.append((name, opts, args))
+        out.append(reqs)
+    return out
 
 
 # ----------------------------------------------------------------------------- main
@@ -739,12 +952,24 @@ def main(chk: Check):
             scanned["done"] = True
         except TableError:
             pass      # already reported above
+        else:
+            try:
+                for f in ipc_framing(chk, P, IPC_CORPUS + ipc_random(chk.rng, chk.n(6, 40)) + KF_IPC_CASE):
+                    ipc_fails.append(f)
+            except Exception:  # noqa: BLE001
+                import traceback
+                scanned["ipc_error"] = traceback.format_exc()[-2000:]
+    ipc_fails = []
     bash_thread = threading.Thread(target=_bash, daemon=True)
     bash_thread.start()
     old_int, old_term = signal.getsignal(signal.SIGINT), signal.getsignal(signal.SIGTERM)
+    real_signal = P.signal
+    P.signal = _NoAlarm()
+    chk.note("expect(timeout=10)'s interval timer is not armed during the sessions (timers are outside the line model)")
     try:
         sessions = real_sessions(chk, P)
     finally:
+        P.signal = real_signal
         signal.signal(signal.SIGINT, old_int)
         signal.signal(signal.SIGTERM, old_term)
     timing["sessions"] = round(time.time() - t1, 1)
@@ -771,6 +996,14 @@ def main(chk: Check):
                            "last_lines": [f"{k} {t[:80]}" for k, t in rec2.recs[-6:]]})
         if not scanned.get("done"):
             chk.violation("correspondence", {"what": "the bash request functions did not finish against the scripted python"},
+                          no_input=True)
+        for f in ipc_fails:
+            if kf_ipc_arg_newline(f["requests"]) and chk.known_finding("ipc-arg-newline", f):
+                continue
+            if len(oracle) < 6:
+                oracle.append(f)
+        if "ipc_error" in scanned:
+            chk.violation("harness-exception", {"what": "the IPC framing stream raised", "traceback": scanned["ipc_error"]},
                           no_input=True)
         for pb in bash_probs:
             chk.violation("correspondence", {"what": pb["what"], "function": pb["function"]}, no_input=True)
